@@ -9,5 +9,5 @@ CONSTANTS
   InitCells = {}
   RenumberAfterRemoval = TRUE
   FileRule = "sequential"
-INVARIANTS ReportAll I_C19_StopsWhenTReached I_D_UpperThresholdIsThreeLmin I_C08_LidIsIndex I_C08_IdsUnique I_C08_IdsBelowCounter I_C08_CouplingValid I_C08_FaceOwner I_C08_FaceTypeIndex I_C08_InitialIds I_C08_IdsNeverReused I_C08_PopulationOnlyChangesByDivisionAndRemoval I_C08_IdCounter I_C04_InitialTargetVolume I_C04_ThreeSigma I_C04_Gone I_C04_TargetVolumeLaw I_C04_PressureLaw I_C04_TargetVolumeClamped I_C04_OnlyEpithelialDivide I_C04_RemovalStep I_C09_DivisionStep I_C19_TimeAdvancesByDt I_C19_IterationCount I_C19_FileCounter I_C19_ConsecutiveNumbers I_C19_FileDescribesAliveCells I_C19_RunCompletes I_C19_FilesInPairs I_C19_NoGaps I_C19_KBound I_C19_RunsUntilT I_C19_FilesParse I_C19_FileContentIsAliveCells I_C19_OneHeader I_C19_FieldsMatchHeader I_C19_StatsRows
+INVARIANTS ReportAll I_C04_EligibleIffReached I_C04_BelowIffUnder I_C19_StopsWhenTReached I_D_UpperThresholdIsThreeLmin I_C08_LidIsIndex I_C08_IdsUnique I_C08_IdsBelowCounter I_C08_CouplingValid I_C08_FaceOwner I_C08_FaceTypeIndex I_C08_InitialIds I_C08_IdsNeverReused I_C08_PopulationOnlyChangesByDivisionAndRemoval I_C08_IdCounter I_C04_InitialTargetVolume I_C04_ThreeSigma I_C04_Gone I_C04_TargetVolumeLaw I_C04_PressureLaw I_C04_TargetVolumeClamped I_C04_OnlyEpithelialDivide I_C04_RemovalStep I_C09_DivisionStep I_C19_TimeAdvancesByDt I_C19_IterationCount I_C19_FileCounter I_C19_ConsecutiveNumbers I_C19_FileDescribesAliveCells I_C19_RunCompletes I_C19_FilesInPairs I_C19_NoGaps I_C19_KBound I_C19_RunsUntilT I_C19_FilesParse I_C19_FileContentIsAliveCells I_C19_OneHeader I_C19_FieldsMatchHeader I_C19_StatsRows
 CHECK_DEADLOCK FALSE
